@@ -67,6 +67,11 @@ class LRRecorder:
             self.ev.append({"e": "accept", "sym": "", "pos": -1, "st": -1, "p": -1, "ok": True})
         elif kind == "lr_error":
             self.ev.append({"e": "error", "sym": "", "pos": f["head"].position, "st": -1, "p": -1, "ok": True})
+        elif kind == "lr_strategy":
+            # not a hook: logged by the harness's own custom strategy when it returns (what it left in the head)
+            h = f["head"]
+            self.ev.append({"e": "strat", "sym": h.token_ahead.symbol.name if h.token_ahead is not None else "-", "pos": h.position, "st": -1, "p": -1,
+                            "ok": bool(f["successful"])})
         elif kind == "lr_recover":
             h = f["head"]
             self.ev.append({"e": "recover", "sym": h.token_ahead.symbol.name if h.token_ahead is not None else "-", "pos": h.position, "st": -1, "p": -1,
@@ -76,6 +81,18 @@ class LRRecorder:
 def make_strategy(real, name, counter):
     if name == "default":
         return True
+    fn = _make_strategy(real, name, counter)
+
+    def logged(head, error, default):
+        ok = fn(head, error, default)
+        sink = real._verif.sink
+        if sink is not None:
+            sink("lr_strategy", {"parser": None, "head": head, "successful": ok})
+        return ok
+    return logged
+
+
+def _make_strategy(real, name, counter):
     if name == "skip2":
         def skip2(head, error, default):
             n = len(head.input_str)
